@@ -456,6 +456,12 @@ pub fn run(o: &Opts) -> i32 {
                         let res = w.sync(&l).await;
                         o.insert("a".into(), json!("sync"));
                         for k in ["ag", "idk", "req"] { o.insert(k.into(), l[k].clone()); }
+                        if let Some(es) = o["req"]["entries"].as_array_mut() {
+                            for e in es.iter_mut() {
+                                let reserved = un(e["id"].as_str().unwrap_or("e0")) < DYNAMIC_RANGE_MINIMUM_UUID;
+                                e["sys"] = json!(reserved);
+                            }
+                        }
                         o.insert("res".into(), json!(res));
                     }
                     "yield" => {
